@@ -29,6 +29,8 @@ pub enum MVal {
     I(i64),
     B(bool),
     S(String),
+    /// the float n + 0.5 (never integral, so every rendering agrees on its text)
+    F(i32),
 }
 
 impl MVal {
@@ -37,8 +39,55 @@ impl MVal {
             MVal::I(i) => i.to_string(),
             MVal::B(b) => b.to_string(),
             MVal::S(s) => s.clone(),
+            MVal::F(n) => format!("{}", *n as f64 + 0.5),
         }
     }
+
+    /// Typed read of this value: `Some(text of the typed value)` when a value of this kind is a
+    /// `ty`, `None` when the cast fails. Integers read as floats (and floats as integers) are
+    /// C19's business; the generators never ask for them.
+    pub fn cast(&self, ty: Ty) -> Option<String> {
+        match (ty, self) {
+            (Ty::I64, MVal::I(i)) => Some(i.to_string()),
+            (Ty::U64, MVal::I(i)) if *i >= 0 => Some(i.to_string()),
+            (Ty::Bool, MVal::B(b)) => Some(b.to_string()),
+            (Ty::Str, MVal::S(s)) | (Ty::String, MVal::S(s)) => Some(s.clone()),
+            (Ty::F64, MVal::F(_)) => Some(self.text()),
+            (Ty::Level, MVal::S(s)) => level_of_text(s).map(|l| LEVEL_NAMES[l].to_string()),
+            _ => None,
+        }
+    }
+}
+
+/// The type a filter leaf pulls a property as.
+#[derive(Clone, Copy, Debug, PartialEq, Eq, Hash)]
+pub enum Ty {
+    I64,
+    U64,
+    Bool,
+    Str,
+    String,
+    F64,
+    Level,
+}
+
+pub const LEVEL_NAMES: [&str; 4] = ["debug", "info", "warn", "error"];
+
+/// Documented textual level forms: any case, a non-empty prefix of the long names or the
+/// abbreviations, optionally followed by non-letter printable ASCII.
+pub fn level_of_text(s: &str) -> Option<usize> {
+    let letters: String = s.chars().take_while(|c| c.is_ascii_alphabetic()).collect();
+    let rest = &s[letters.len()..];
+    if letters.is_empty() || !rest.chars().all(|c| c.is_ascii() && !c.is_ascii_control() && !c.is_ascii_alphabetic() && c != ' ') {
+        return None;
+    }
+    let up = letters.to_ascii_uppercase();
+    for (w, l) in [("DEBUG", 0), ("DBG", 0), ("INFORMATION", 1), ("WARNING", 2), ("WRN", 2), ("ERROR", 3)] {
+        if w.starts_with(&up) {
+            return Some(l);
+        }
+    }
+    None
 }
 
 impl ToValue for MVal {
@@ -47,6 +96,7 @@ impl ToValue for MVal {
             MVal::I(i) => Value::from(*i),
             MVal::B(b) => Value::from(*b),
             MVal::S(s) => Value::from(s.as_str()),
+            MVal::F(n) => Value::from(*n as f64 + 0.5),
         }
     }
 }
@@ -296,7 +346,26 @@ pub enum FLeaf {
     LacksKey(String),
     /// stateful: accepts its first n evaluations, rejects afterwards (a budget / rate limiter)
     Budget(u64),
+    /// typed lookup: `props.pull::<ty>(key)` rendered as text equals this (None = the pull yields
+    /// nothing). First value wins; a first value that fails to cast yields nothing.
+    Pull(String, Ty, Option<String>),
+    /// the stock `emit::level::min_filter(min)` (+ `treat_unleveled_as`)
+    MinLevel(usize, Option<usize>),
+    /// the stock `MinLevelPathMap` over (path, minimum) registrations with an optional default
+    PathMap(Vec<(String, usize)>, Option<usize>),
 }
+
+fn model_level_accepts(ev: &MEvent, min: usize, unleveled: Option<usize>) -> bool {
+    let level = ev
+        .first(emit::well_known::KEY_LVL)
+        .and_then(|v| v.cast(Ty::Level))
+        .map(|name| LEVEL_NAMES.iter().position(|n| *n == name).unwrap())
+        .or(unleveled)
+        .unwrap_or(1);
+    level >= min
+}
+
+const REAL_LEVELS: [emit::Level; 4] = [emit::Level::Debug, emit::Level::Info, emit::Level::Warn, emit::Level::Error];
 
 impl FLeaf {
     /// `calls_before` = how often this leaf was evaluated before (the state of stateful leaves).
@@ -316,6 +385,23 @@ impl FLeaf {
             FLeaf::KeyAt(i, k) => ev.props.get(*i).map(|(pk, _)| pk == k).unwrap_or(false),
             FLeaf::LacksKey(k) => !ev.props.iter().any(|(pk, _)| pk == k),
             FLeaf::Budget(n) => calls_before < *n,
+            FLeaf::Pull(k, ty, want) => ev.first(k).and_then(|v| v.cast(*ty)) == *want,
+            FLeaf::MinLevel(min, unleveled) => model_level_accepts(ev, *min, *unleveled),
+            FLeaf::PathMap(regs, default) => {
+                // linear scan: longest registered path that is the module or an ancestor at `::`
+                let m: Vec<&str> = ev.mdl.split("::").collect();
+                let mut best: Option<(usize, usize)> = None;
+                for (p, min) in regs {
+                    let a: Vec<&str> = p.split("::").collect();
+                    if a.len() <= m.len() && a.iter().zip(m.iter()).all(|(x, y)| x == y) && best.map(|(d, _)| d <= a.len()).unwrap_or(true) {
+                        best = Some((a.len(), *min));
+                    }
+                }
+                match best.map(|(_, min)| min).or(*default) {
+                    Some(min) => model_level_accepts(ev, min, None),
+                    None => true,
+                }
+            }
         }
     }
 
@@ -354,6 +440,34 @@ impl FLeaf {
             }
             FLeaf::LacksKey(k) => evt.props().get(k.as_str()).is_none(),
             FLeaf::Budget(n) => calls_before < *n,
+            FLeaf::Pull(k, ty, want) => {
+                let k = k.as_str();
+                let p = evt.props();
+                let got: Option<String> = match ty {
+                    Ty::I64 => p.pull::<i64, _>(k).map(|v| v.to_string()),
+                    Ty::U64 => p.pull::<u64, _>(k).map(|v| v.to_string()),
+                    Ty::Bool => p.pull::<bool, _>(k).map(|v| v.to_string()),
+                    Ty::Str => p.pull::<Str, _>(k).map(|v| v.get().to_string()),
+                    Ty::String => p.pull::<String, _>(k),
+                    Ty::F64 => p.pull::<f64, _>(k).map(|v| format!("{}", v)),
+                    Ty::Level => p.pull::<emit::Level, _>(k).map(|v| v.to_string()),
+                };
+                got == *want
+            }
+            FLeaf::MinLevel(min, unleveled) => {
+                let f = emit::level::min_filter(REAL_LEVELS[*min]);
+                match unleveled {
+                    Some(d) => f.treat_unleveled_as(REAL_LEVELS[*d]).matches(evt),
+                    None => f.matches(evt),
+                }
+            }
+            FLeaf::PathMap(regs, default) => {
+                let mut map = emit::level::min_by_path_filter(regs.iter().map(|(p, min)| (Path::new_owned_raw(p.clone()), REAL_LEVELS[*min])));
+                if let Some(d) = default {
+                    map.default_min_level(REAL_LEVELS[*d]);
+                }
+                map.matches(evt)
+            }
         }
     }
 
@@ -369,6 +483,9 @@ impl FLeaf {
             FLeaf::KeyAt(..) => "key-at",
             FLeaf::LacksKey(_) => "lacks-key",
             FLeaf::Budget(_) => "budget",
+            FLeaf::Pull(..) => "typed-pull",
+            FLeaf::MinLevel(..) => "min-level-filter",
+            FLeaf::PathMap(..) => "min-level-path-map",
         }
     }
 }
